@@ -21,6 +21,45 @@ def isGuardFrame : Frame → Bool
   | .oqGet _ => true | .oqPut _ _ => true | .pqGet _ => true | .pqPut _ _ _ _ => true | .condWait _ => true
   | _ => false
 
+/-- frame `f` is a wait on guard `g` (the guard assigned to the object the frame names) -/
+def FrameOn (w : World) (f : Frame) (g : Nat) : Prop :=
+  match f with
+  | .acquire r => (w.res[r]?).map resStat = some g
+  | .pool pl _ _ _ => (w.pools[pl]?).map (fun x => (poolStat x).1) = some g
+  | .bufGet b _ _ => (w.bufs[b]?).map (fun x => (bufStat x).1) = some g
+  | .bufPut b _ _ => (w.bufs[b]?).map (fun x => (bufStat x).2.1) = some g
+  | .oqGet q => (w.oqs[q]?).map (fun x => (oqStat x).1) = some g
+  | .oqPut q _ => (w.oqs[q]?).map (fun x => (oqStat x).2.1) = some g
+  | .pqGet k => (w.pqs[k]?).map (fun x => (pqStat x).1) = some g
+  | .pqPut k _ _ _ => (w.pqs[k]?).map (fun x => (pqStat x).2.1) = some g
+  | .condWait c => w.conds[c]? = some g
+  | _ => False
+
+theorem frameOn_guardFrame {w : World} {f : Frame} {g : Nat} (h : FrameOn w f g) : isGuardFrame f = true := by
+  cases f <;> first | rfl | exact h.elim
+
+theorem frameOn_of_stat {w w' : World} (hs : Stat w w') (f : Frame) (g : Nat) : FrameOn w' f g ↔ FrameOn w f g := by
+  have hmap : ∀ {α β γ : Type} (o o' : Option α) (st : α → β) (pr : β → γ), o'.map st = o.map st →
+      o'.map (fun x => pr (st x)) = o.map (fun x => pr (st x)) := by
+    intro α β γ o o' st pr h
+    have := congrArg (Option.map pr) h
+    simpa [Option.map_map, Function.comp_def] using this
+  cases f <;> simp only [FrameOn]
+  · rw [hs.res]
+  · rw [hmap _ _ poolStat Prod.fst (hs.pools _)]
+  · rw [hmap _ _ bufStat Prod.fst (hs.bufs _)]
+  · rw [hmap _ _ bufStat (fun x => x.2.1) (hs.bufs _)]
+  · rw [hmap _ _ oqStat Prod.fst (hs.oqs _)]
+  · rw [hmap _ _ oqStat (fun x => x.2.1) (hs.oqs _)]
+  · rw [hmap _ _ pqStat Prod.fst (hs.pqs _)]
+  · rw [hmap _ _ pqStat (fun x => x.2.1) (hs.pqs _)]
+  · rw [hs.conds]
+
+theorem frameOn_congr {w w' : World} (hr : w'.res = w.res) (hpl : w'.pools = w.pools) (hb : w'.bufs = w.bufs)
+    (ho : w'.oqs = w.oqs) (hq : w'.pqs = w.pqs) (hc : w'.conds = w.conds) (f : Frame) (g : Nat) :
+    FrameOn w' f g ↔ FrameOn w f g := by
+  cases f <;> simp only [FrameOn, hr, hpl, hb, ho, hq, hc]
+
 /-- key `k` is in the waiting list of guard `g` -/
 def queued (w : World) (g k : Nat) : Prop := ∃ gd, w.guards[g]? = some gd ∧ k ∈ keys (abs gd.q)
 
@@ -40,7 +79,7 @@ structure GInv (ex : Pid → Prop) (fr : Pid → Option Frame) (w : World) : Pro
   /-- I_guard: a queued key is a process (pid + 1) that awaits this guard -/
   gk : ∀ g k, queued w g k → k ≠ 0 ∧ k ≤ w.procs.size ∧ (¬ ex (k - 1) → Await.guard g ∈ (w.proc (k - 1)).awaits)
   /-- a process awaits at most one guard, and only while suspended in a guard wait -/
-  ga : ∀ p, guardAw w p = [] ∨ ∃ g f, fr p = some f ∧ isGuardFrame f = true ∧ guardAw w p = [.guard g]
+  ga : ∀ p, guardAw w p = [] ∨ ∃ g f, fr p = some f ∧ FrameOn w f g ∧ guardAw w p = [.guard g]
   /-- the logical frame is the recorded one wherever it matters -/
   gfb : ∀ p, ¬ ex p → (w.proc p).blocked ≠ fr p →
     guardAw w p = [] ∧ (∀ e ∈ w.ev.pending, e.item.a = aTime → e.item.c = 0 → e.item.b ≠ p + 1)
@@ -73,7 +112,7 @@ theorem queued_congr {w w' : World} (h : w'.guards = w.guards) (g k : Nat) : que
     added -/
 theorem GInv.congr {w w' : World} (hp : GInv ex fr w) (ha : ∀ p, (w'.proc p).awaits = (w.proc p).awaits)
     (hb : ∀ p, (w'.proc p).blocked = (w.proc p).blocked) (hg : w'.guards = w.guards) (hsz : w'.procs.size = w.procs.size)
-    (hcd : w'.conds = w.conds) (hei : EvInv w'.ev)
+    (hcd : w'.conds = w.conds) (hst : ∀ f g, FrameOn w' f g ↔ FrameOn w f g) (hei : EvInv w'.ev)
     (he : ∀ e' ∈ w'.ev.pending, (∃ e ∈ w.ev.pending, e.key = e'.key ∧ e.item = e'.item) ∨ Harmless e') : GInv ex fr w' where
   ei := hei
   gw := fun g gd h => hp.gw g gd (by rw [← hg]; exact h)
@@ -81,7 +120,11 @@ theorem GInv.congr {w w' : World} (hp : GInv ex fr w) (ha : ∀ p, (w'.proc p).a
   gk := fun g k hq => by
     have := hp.gk g k ((queued_congr hg g k).1 hq)
     rw [hsz, ha]; exact this
-  ga := fun p => by rw [guardAw_congr ha]; exact hp.ga p
+  ga := fun p => by
+    rw [guardAw_congr ha]
+    rcases hp.ga p with h | ⟨g, f, h1, h2, h3⟩
+    · exact Or.inl h
+    · exact Or.inr ⟨g, f, h1, (hst f g).2 h2, h3⟩
   gfb := fun p hx hbl => by
     rw [hb] at hbl
     obtain ⟨h1, h2⟩ := hp.gfb p hx hbl
@@ -131,38 +174,54 @@ theorem GInv.congr {w w' : World} (hp : GInv ex fr w) (ha : ∀ p, (w'.proc p).a
 
 theorem GInv.same {w w' : World} (hp : GInv ex fr w) (ha : ∀ p, (w'.proc p).awaits = (w.proc p).awaits)
     (hb : ∀ p, (w'.proc p).blocked = (w.proc p).blocked) (hg : w'.guards = w.guards) (hsz : w'.procs.size = w.procs.size)
-    (hcd : w'.conds = w.conds) (he : w'.ev = w.ev) : GInv ex fr w' :=
-  hp.congr ha hb hg hsz hcd (by rw [he]; exact hp.ei) (by rw [he]; exact fun e h => Or.inl ⟨e, h, rfl, rfl⟩)
+    (hcd : w'.conds = w.conds) (hst : ∀ f g, FrameOn w' f g ↔ FrameOn w f g) (he : w'.ev = w.ev) : GInv ex fr w' :=
+  hp.congr ha hb hg hsz hcd hst (by rw [he]; exact hp.ei) (by rw [he]; exact fun e h => Or.inl ⟨e, h, rfl, rfl⟩)
+
+/-- nothing but objects (with their static data intact), flags, variables, log changed -/
+theorem GInv.ofStat {w w' : World} (hp : GInv ex fr w) (hs : Stat w w') (hpr : w'.procs = w.procs) (hg : w'.guards = w.guards)
+    (he : w'.ev = w.ev) : GInv ex fr w' :=
+  hp.same (fun p => by rw [proc_congr hpr]) (fun p => by rw [proc_congr hpr]) hg (by rw [hpr]) hs.conds (frameOn_of_stat hs) he
 
 theorem GInv.fail {w : World} (h : GInv ex fr w) (m : String) : GInv ex fr (w.fail m) :=
-  h.same (fun _ => by simp) (fun _ => by simp) (by simp) (by simp) (by simp) (by simp)
+  h.same (fun _ => by simp) (fun _ => by simp) (by simp) (by simp) (by simp)
+    (frameOn_congr (by simp) (by simp) (by simp) (by simp) (by simp) (by simp)) (by simp)
 theorem GInv.emit {w : World} (h : GInv ex fr w) (l : String) : GInv ex fr (w.emit l) :=
-  h.same (fun _ => rfl) (fun _ => rfl) rfl rfl rfl rfl
+  h.same (fun _ => rfl) (fun _ => rfl) rfl rfl rfl (fun _ _ => Iff.rfl) rfl
 theorem GInv.modProc_ctl {w : World} (h : GInv ex fr w) (p : Pid) (f : Proc → Proc)
     (hf : ∀ x, (f x).awaits = x.awaits ∧ (f x).blocked = x.blocked) : GInv ex fr (w.modProc p f) := by
-  refine h.same (fun q => ?_) (fun q => ?_) rfl (by simp) rfl rfl
+  refine h.same (fun q => ?_) (fun q => ?_) rfl (by simp) rfl (fun _ _ => Iff.rfl) rfl
   · rw [modProc_proc]; split
     · rename_i hq; rw [hq.1]; exact (hf _).1
     · rfl
   · rw [modProc_proc]; split
     · rename_i hq; rw [hq.1]; exact (hf _).2
     · rfl
-theorem GInv.setRes {w : World} (h : GInv ex fr w) (x : Array Res) : GInv ex fr { w with res := x } :=
-  h.same (fun _ => rfl) (fun _ => rfl) rfl rfl rfl rfl
-theorem GInv.setPools {w : World} (h : GInv ex fr w) (x : Array Pool) : GInv ex fr { w with pools := x } :=
-  h.same (fun _ => rfl) (fun _ => rfl) rfl rfl rfl rfl
-theorem GInv.setBufs {w : World} (h : GInv ex fr w) (x : Array Buf) : GInv ex fr { w with bufs := x } :=
-  h.same (fun _ => rfl) (fun _ => rfl) rfl rfl rfl rfl
-theorem GInv.setOqs {w : World} (h : GInv ex fr w) (x : Array OQ) : GInv ex fr { w with oqs := x } :=
-  h.same (fun _ => rfl) (fun _ => rfl) rfl rfl rfl rfl
-theorem GInv.setPqs {w : World} (h : GInv ex fr w) (x : Array PQ) : GInv ex fr { w with pqs := x } :=
-  h.same (fun _ => rfl) (fun _ => rfl) rfl rfl rfl rfl
+theorem GInv.setResSet {w : World} (h : GInv ex fr w) (r : Nat) (y : Res) (hy : ∀ x, w.res[r]? = some x → resStat y = resStat x) :
+    GInv ex fr { w with res := w.res.set! r y } := h.ofStat ((Stat.refl w).setResSet r y hy) rfl rfl rfl
+theorem GInv.setResModify {w : World} (h : GInv ex fr w) (r : Nat) (g : Res → Res) (hg : ∀ x, resStat (g x) = resStat x) :
+    GInv ex fr { w with res := w.res.modify r g } := h.ofStat ((Stat.refl w).setResModify r g hg) rfl rfl rfl
+theorem GInv.setPoolsSet {w : World} (h : GInv ex fr w) (r : Nat) (y : Pool) (hy : ∀ x, w.pools[r]? = some x → poolStat y = poolStat x) :
+    GInv ex fr { w with pools := w.pools.set! r y } := h.ofStat ((Stat.refl w).setPoolsSet r y hy) rfl rfl rfl
+theorem GInv.setPoolsModify {w : World} (h : GInv ex fr w) (r : Nat) (g : Pool → Pool) (hg : ∀ x, poolStat (g x) = poolStat x) :
+    GInv ex fr { w with pools := w.pools.modify r g } := h.ofStat ((Stat.refl w).setPoolsModify r g hg) rfl rfl rfl
+theorem GInv.setBufsSet {w : World} (h : GInv ex fr w) (r : Nat) (y : Buf) (hy : ∀ x, w.bufs[r]? = some x → bufStat y = bufStat x) :
+    GInv ex fr { w with bufs := w.bufs.set! r y } := h.ofStat ((Stat.refl w).setBufsSet r y hy) rfl rfl rfl
+theorem GInv.setBufsModify {w : World} (h : GInv ex fr w) (r : Nat) (g : Buf → Buf) (hg : ∀ x, bufStat (g x) = bufStat x) :
+    GInv ex fr { w with bufs := w.bufs.modify r g } := h.ofStat ((Stat.refl w).setBufsModify r g hg) rfl rfl rfl
+theorem GInv.setOqsSet {w : World} (h : GInv ex fr w) (r : Nat) (y : OQ) (hy : ∀ x, w.oqs[r]? = some x → oqStat y = oqStat x) :
+    GInv ex fr { w with oqs := w.oqs.set! r y } := h.ofStat ((Stat.refl w).setOqsSet r y hy) rfl rfl rfl
+theorem GInv.setOqsModify {w : World} (h : GInv ex fr w) (r : Nat) (g : OQ → OQ) (hg : ∀ x, oqStat (g x) = oqStat x) :
+    GInv ex fr { w with oqs := w.oqs.modify r g } := h.ofStat ((Stat.refl w).setOqsModify r g hg) rfl rfl rfl
+theorem GInv.setPqsSet {w : World} (h : GInv ex fr w) (r : Nat) (y : PQ) (hy : ∀ x, w.pqs[r]? = some x → pqStat y = pqStat x) :
+    GInv ex fr { w with pqs := w.pqs.set! r y } := h.ofStat ((Stat.refl w).setPqsSet r y hy) rfl rfl rfl
+theorem GInv.setPqsModify {w : World} (h : GInv ex fr w) (r : Nat) (g : PQ → PQ) (hg : ∀ x, pqStat (g x) = pqStat x) :
+    GInv ex fr { w with pqs := w.pqs.modify r g } := h.ofStat ((Stat.refl w).setPqsModify r g hg) rfl rfl rfl
 theorem GInv.setFlags {w : World} (h : GInv ex fr w) (x : Array Int) : GInv ex fr { w with flags := x } :=
-  h.same (fun _ => rfl) (fun _ => rfl) rfl rfl rfl rfl
+  h.same (fun _ => rfl) (fun _ => rfl) rfl rfl rfl (fun _ _ => Iff.rfl) rfl
 theorem GInv.setGvars {w : World} (h : GInv ex fr w) (x : Array Nat) : GInv ex fr { w with gvars := x } :=
-  h.same (fun _ => rfl) (fun _ => rfl) rfl rfl rfl rfl
+  h.same (fun _ => rfl) (fun _ => rfl) rfl rfl rfl (fun _ _ => Iff.rfl) rfl
 theorem GInv.setEvWaiters {w : World} (h : GInv ex fr w) (x : List (Nat × List Pid)) : GInv ex fr { w with evWaiters := x } :=
-  h.same (fun _ => rfl) (fun _ => rfl) rfl rfl rfl rfl
+  h.same (fun _ => rfl) (fun _ => rfl) rfl rfl rfl (fun _ _ => Iff.rfl) rfl
 
 /-- what a newly scheduled event must satisfy to be none of `GInv`'s business -/
 def HarmlessNew (a : Nat) (sig : Int) : Prop :=
@@ -180,7 +239,7 @@ theorem harmless_mkEv {k a s : Nat} {sig t pri : Int} (h : HarmlessNew a sig) : 
 
 theorem GInv.pushEv_harmless {w : World} (h : GInv ex fr w) (a s : Nat) (sig t pri : Int) (ht : w.now ≤ t)
     (ha : HarmlessNew a sig) : GInv ex fr (pushEv w a s sig t pri) := by
-  refine h.congr (fun _ => rfl) (fun _ => rfl) rfl rfl rfl (pushEv_evinv a s sig t pri ht h.ei) ?_
+  refine h.congr (fun _ => rfl) (fun _ => rfl) rfl rfl rfl (fun _ _ => Iff.rfl) (pushEv_evinv a s sig t pri ht h.ei) ?_
   intro e' he'
   simp only [pushEv_pending, List.mem_cons] at he'
   rcases he' with rfl | he'
@@ -201,7 +260,7 @@ theorem GInv.reprioEv {w : World} (h : GInv ex fr w) {k : Nat} {v : Int} {ev' : 
   · cases hr
   · simp only [Except.ok.injEq] at hr
     subst hr
-    refine h.congr (fun _ => rfl) (fun _ => rfl) rfl rfl rfl hinv ?_
+    refine h.congr (fun _ => rfl) (fun _ => rfl) rfl rfl rfl (fun _ _ => Iff.rfl) hinv ?_
     intro e' he'
     simp only [List.mem_map] at he'
     obtain ⟨e, he, rfl⟩ := he'
@@ -209,7 +268,8 @@ theorem GInv.reprioEv {w : World} (h : GInv ex fr w) {k : Nat} {v : Int} {ev' : 
 
 /-- any number of cancellations -/
 theorem GInv.ofCanRel {w w' : World} (h : GInv ex fr w) (hr : CanRel w w') : GInv ex fr w' := by
-  refine h.congr (fun p => by rw [hr.proc]) (fun p => by rw [hr.proc]) hr.guards (by rw [hr.procs]) hr.conds (hr.evinv h.ei) ?_
+  refine h.congr (fun p => by rw [hr.proc]) (fun p => by rw [hr.proc]) hr.guards (by rw [hr.procs]) hr.conds
+    (frameOn_congr hr.res hr.pools hr.bufs hr.oqs hr.pqs hr.conds) (hr.evinv h.ei) ?_
   intro e' he'
   rcases hr.pend e' he' with hold | ⟨_, _, _, _, _, _, heq⟩
   · exact Or.inl ⟨e', hold, rfl, rfl⟩
